@@ -1,0 +1,21 @@
+//go:build verif
+
+package util
+
+// Machine-checked contracts (read by /verif/engine; comment-only, compiled only with -tags verif).
+//
+// IsLocal against the RFC ranges written as numeric intervals (independently of the masks in the code):
+//   RFC 1918  10.0.0.0-10.255.255.255, 172.16.0.0-172.31.255.255, 192.168.0.0-192.168.255.255
+//   RFC 6598  100.64.0.0-100.127.255.255
+//   RFC 3927  169.254.0.0-169.254.255.255
+//   RFC 4193  fc00::/7  (first byte 0xfc or 0xfd)
+//@ spec func v4local(a byte, b byte) bool = a == 10 || (a == 172 && b >= 16 && b <= 31) || (a == 192 && b == 168) || (a == 100 && b >= 64 && b <= 127) || (a == 169 && b == 254)
+//@ spec func ulaFirst(a byte) bool = a >= 0xfc && a <= 0xfd
+//
+//@ func IsLocal(ip net.IP) (r bool)
+//@   props C08
+//@   model bv
+//@   ensures {ipv4} len(ip) == 4 ==> r == v4local(ip[0], ip[1])
+//@   ensures {v4-mapped} len(ip) == 16 && ip[0] == 0 && ip[1] == 0 && ip[2] == 0 && ip[3] == 0 && ip[4] == 0 && ip[5] == 0 && ip[6] == 0 && ip[7] == 0 && ip[8] == 0 && ip[9] == 0 && ip[10] == 0xff && ip[11] == 0xff ==> r == v4local(ip[12], ip[13])
+//@   ensures {ipv6} len(ip) == 16 && !(ip[0] == 0 && ip[1] == 0 && ip[2] == 0 && ip[3] == 0 && ip[4] == 0 && ip[5] == 0 && ip[6] == 0 && ip[7] == 0 && ip[8] == 0 && ip[9] == 0 && ip[10] == 0xff && ip[11] == 0xff) ==> r == ulaFirst(ip[0])
+//@   ensures {other-lengths} len(ip) != 4 && len(ip) != 16 ==> !r
